@@ -3,15 +3,15 @@ CONSTANTS
   Tags = {"a", "b"}
   Terms = {"h"}
   MaxArg = 2
-  MaxLen = 4
-  MaxChains = 4
-  MaxHands = 1
-  MaxOps = 5
+  MaxLen = 3
+  MaxChains = 3
+  MaxHands = 0
+  MaxOps = 3
   MaxReqs = 0
-  Variant = "forward"
-  Emit = FALSE
+  Variant = "copy"
+  Emit = TRUE
   EmitFrom = 1
-INVARIANTS Refines WalkOK WalksOwnHandler
+INVARIANTS Refines PrintHist
 PROPERTIES ImmutableP
 VIEW View
 CHECK_DEADLOCK FALSE
